@@ -228,6 +228,53 @@ fn arena_base(arena: &Arena) -> usize {
     p.cast::<u8>().as_ptr() as usize - off
 }
 
+impl<'a> PoolSet<'a> {
+    /// For harnesses whose strings are at most 16 bytes: the two smallest classes have two slots,
+    /// every other class is exhausted from the start (its requests fall back to the arena exactly
+    /// as in production).  Keeps the persistent model arena below 1000 bytes.
+    pub(crate) fn verif_tiny(arena: &'a Arena) -> Self {
+        macro_rules! p {
+            ($i:expr) => {
+                Pool::new(arena, SLOT_SIZES[$i], if $i < 2 { 2 } else { 0 })
+            };
+        }
+        let pools = [
+            p!(0), p!(1), p!(2), p!(3), p!(4), p!(5), p!(6), p!(7), p!(8), p!(9), p!(10), p!(11),
+            p!(12), p!(13), p!(14), p!(15), p!(16), p!(17), p!(18), p!(19),
+        ];
+        Self { pools, arena }
+    }
+}
+
+/// A PoolSet whose two smallest classes (8- and 16-byte slots, two slots each) are laid over
+/// small harness-owned stack buffers and whose other classes are exhausted.  Small stack arrays
+/// are tracked field-sensitively by the symbolic executor, so free-list indices stay constants
+/// (a free list in arena memory makes every recycled slot address symbolic).
+impl PoolSet<'static> {
+pub(crate) fn verif_over(arena: &'static Arena, s0: *mut u8, i0: *mut u32, s1: *mut u8, i1: *mut u32) -> PoolSet<'static> {
+    let mk = |slots: *mut u8, idx: *mut u32, size: u32, count: u32| Pool {
+        block: SlotBlock { base: NonNull::new(slots).unwrap(), slot_size: size, slot_count: count, bump: Cell::new(0) },
+        free: FreeList { indices: NonNull::new(idx).unwrap(), capacity: count, len: Cell::new(0) },
+        live_count: Cell::new(0),
+    };
+    macro_rules! empty {
+        ($i:expr) => {
+            Pool {
+                block: SlotBlock { base: NonNull::dangling(), slot_size: SLOT_SIZES[$i], slot_count: 0, bump: Cell::new(0) },
+                free: FreeList { indices: NonNull::dangling(), capacity: 0, len: Cell::new(0) },
+                live_count: Cell::new(0),
+            }
+        };
+    }
+    let pools = [
+        mk(s0, i0, SLOT_SIZES[0], 2), mk(s1, i1, SLOT_SIZES[1], 2),
+        empty!(2), empty!(3), empty!(4), empty!(5), empty!(6), empty!(7), empty!(8), empty!(9), empty!(10), empty!(11),
+        empty!(12), empty!(13), empty!(14), empty!(15), empty!(16), empty!(17), empty!(18), empty!(19),
+    ];
+    PoolSet { pools, arena }
+}
+}
+
 fn pool_state(ps: &PoolSet<'_>, c: usize) -> (u32, u32, u32) {
     (ps.pools[c].block.bump.get(), ps.pools[c].free.len(), ps.pools[c].live_count.get())
 }
